@@ -439,7 +439,7 @@ func init() {
 				}
 			}})
 		}
-		us = append(us, coldUnit("nas.Message", "decode", "encode"))
+		us = append(us, coldUnits(tier, "nas.Message", "decode", "encode")...)
 		if sp, err := codecSpec(); err == nil {
 			// messages with meaningful contents (nested messages at several offsets, EAP, PPP ...)
 			// and every security header type nibble in octet 2 of 5GMM messages: routing looks at
@@ -901,7 +901,7 @@ func init() {
 			}})
 		}
 		us = append(us, reuseUnits(sp, "decode-reuse", 30, 600)...)
-		us = append(us, coldUnit("nas.Message", "decode", "encode"))
+		us = append(us, coldUnits(tier, "nas.Message", "decode", "encode")...)
 		for _, def := range sp.Messages {
 			def := def
 			us = append(us, core.Unit{Name: "behind-64k-" + def.Name, Weight: 20, Run: func(c *core.Ctx) {
